@@ -79,7 +79,7 @@ func boundaryValues(lo, hi *big.Int) []*big.Int {
 
 // batteryJobs: one package; per type one struct with one method per operator
 // (expression form, widened) and one per op-assign form; histories = boundary pairs.
-func batteryJobs() *pkgJob {
+func batteryJobs() []*pkgJob {
 	j := &pkgJob{name: "bat"}
 	for _, w := range wtys {
 		p := &program{sname: "b" + w.name, nOps: map[string]int{}}
@@ -164,12 +164,12 @@ func batteryJobs() *pkgJob {
 	mp, mh := maskBattery()
 	j.progs = append(j.progs, mp)
 	j.hists = append(j.hists, mh)
-	var b strings.Builder
-	for _, p := range j.progs {
-		b.WriteString(p.src)
+	// one package per struct: they are translated and compiled concurrently
+	var out []*pkgJob
+	for i, p := range j.progs {
+		out = append(out, &pkgJob{name: "bat" + p.sname, progs: []*program{p}, hists: [][]call{j.hists[i]}, src: p.src})
 	}
-	j.src = b.String()
-	return j
+	return out
 }
 
 // maskBattery: narrowing conversions behind a mask, `(x & M) as T` and
@@ -483,6 +483,93 @@ func controlBattery() (*program, []call) {
             }
         }.v
     }
+    this.acc ~mod+= acc
+    return acc`)
+	// an inner `while true` without continue whose LAST statement is a jump to
+	// an OUTER loop: not the trivial `…; break` form — written as do-while(0)
+	// with the jump dropped, control would fall into the rest of the outer body
+	// (seeded/C04-m2). All shapes: break / continue, to the next loop out and
+	// two loops out, the inner loop labelled or not, with and without an own
+	// `break` earlier in the body, and a jump behind an `if true`-less block.
+	mk("lastjump", `
+    while.outer i < 6 {
+        i ~mod+= 1
+        while true {
+            if i < args.a {
+                break
+            }
+            acc ~mod+= 1
+            break.outer
+        }
+        acc ~mod+= 10
+    }.outer
+    i = 0
+    while.outer i < 6 {
+        i ~mod+= 1
+        while true {
+            if i == args.b {
+                break
+            }
+            acc ~mod+= 100
+            continue.outer
+        }
+        acc ~mod+= 1000
+    }.outer
+    i = 0
+    while.l1 i < 4 {
+        i ~mod+= 1
+        j = 0
+        while.l2 j < 4 {
+            j ~mod+= 1
+            while.l3 true {
+                if (i ~mod+ j) < args.a {
+                    break.l3
+                }
+                if j == args.b {
+                    acc ~mod+= 7
+                    break.l2
+                }
+                acc ~mod+= 10000
+                break.l1
+            }.l3
+            acc ~mod+= 100000
+        }.l2
+        acc ~mod+= 1000000
+    }.l1
+    this.acc ~mod+= acc
+    return acc`)
+	mk("lastjump2", `
+    while.l1 i < 4 {
+        i ~mod+= 1
+        j = 0
+        while.l2 j < 3 {
+            j ~mod+= 1
+            while true {
+                acc ~mod+= 1
+                if ((i ~mod* 3) ~mod+ j) == args.a {
+                    break
+                }
+                continue.l1
+            }
+            acc ~mod+= 10
+            while.t true {
+                acc ~mod+= 100
+                break.l2
+            }.t
+        }.l2
+        acc ~mod+= 1000
+        while true {
+            k ~mod+= 1
+            while true {
+                if k == args.b {
+                    break.l1
+                }
+                break
+            }
+            acc ~mod+= 10000
+            break.l1
+        }
+    }.l1
     this.acc ~mod+= acc
     return acc`)
 	var hist []call
